@@ -123,6 +123,18 @@ def instantiate(template, names):
     return out.replace('{{', '{').replace('}}', '}')
 
 
+def _listed_finding_classes():
+    import common
+    out = set()
+    for f in common.load_known_findings().get('open', []):
+        fc = f.get('match', {}).get('finding_class')
+        out |= set(fc if isinstance(fc, list) else [fc])
+    return out
+
+
+LISTED = _listed_finding_classes()
+
+
 def runtime_builtins():
     """builtins that the runtime text and the generated code of the working tree read"""
     from sourcer import translator as t
@@ -256,6 +268,9 @@ def run(tier, seed, lean):
         for pool_name, pool in pools.items():
             cands = sorted(n for n in pool if n.isidentifier() and not keyword.iskeyword(n) and not n.startswith('_') and n not in API and n not in own_python)
             always = emitted_parameters(base_mod._source_code)
+            if pool_name == 'builtin read by the runtime':
+                # a builtin that the runtime reads and that no recorded finding lists is either harmless or new: never sampled away
+                always = always | {n for n in cands if not any(f'runtime-builtin:{k}:{n}' in LISTED for k in 'RCTfpv')}
             if tier == 'quick' and len(cands) > 14:
                 cands = sorted(set(rng.sample(cands, 14)) | (set(cands) & always))
             for name in cands:
